@@ -212,6 +212,9 @@ pub fn conclude(cfg: &CheckCfg, mut agg: Agg, scratch: &Path, started: Instant) 
     for w in &warnings {
         println!("WARNING: {}", w);
     }
+    for n in &agg.notes {
+        println!("NOTE: {}", n);
+    }
 
     let samples: Vec<serde_json::Value> = std::mem::take(&mut agg.samples);
     let exhaustive = !agg.exhaustive_campaigns.is_empty() && cfg.tier == Tier::Quick;
@@ -244,6 +247,7 @@ pub fn conclude(cfg: &CheckCfg, mut agg: Agg, scratch: &Path, started: Instant) 
             "known_findings_matched": known_matched,
             "violations": violations_json,
             "warnings": warnings,
+            "notes": agg.notes,
         },
         "assumptions": assumptions(prop),
         "wall_s": wall,
